@@ -143,6 +143,9 @@ func TestSizeSweep(t *testing.T) {
 					if (target == "message" && !o.sized(alg, mode)) || (target == "aad" && !o.Aad) {
 						continue
 					}
+					if o.Doc && mi > 1 && !vk.Thorough() {
+						continue // quick tier: long documents without and with their own content type (the other content types: short documents, KeyDocSweep)
+					}
 					if target == "aad" && mi > 0 && o.sized(alg, mode) && !vk.Thorough() {
 						continue // quick tier: long associated data on the failure paths only where the message cannot be long (RSA labels)
 					}
@@ -153,7 +156,7 @@ func TestSizeSweep(t *testing.T) {
 						thr, offs, far = vk.Pick([]int{4 << 10, 64 << 10}, sizeThresholds), []int{1}, []int{1}
 					case target == "aad":
 						offs, far = []int{-1, 0, 1}, []int{0, 1}
-					case mi > 0:
+					case mi > 0 || o.Doc: // (a document is a text: its length is not the payload's, block boundaries mean nothing to it)
 						offs, far = []int{-1, 0, 1, 16}, []int{0, 1}
 					case granularity(o, alg) == 8: // key wrap: six block encryptions per 8 bytes; the menu becomes the whole units T-8, T, T+8
 						offs, far = []int{-1, 0, 1}, []int{-1, 0, 1}
